@@ -34,10 +34,15 @@ pub(crate) fn entity_created_on_server(
 
 pub(crate) fn entity_parented_on_server(
     mut server: ResMut<RenetServer>,
-    track: ResMut<SyncTrackerRes>,
+    mut track: ResMut<SyncTrackerRes>,
     query: Query<(Entity, &Parent), Changed<Parent>>,
 ) {
     for (e_id, p) in query.iter() {
+        if let Some(id) = track.entity_to_uuid.get(&e_id).copied() {
+            if track.skip_network_parent_change(id) {
+                continue;
+            }
+        }
         for client_id in server.clients_id().into_iter() {
             let Some(id) = track.entity_to_uuid.get(&e_id) else {
                 continue;
